@@ -1,5 +1,5 @@
 (* C19 — everything after -r/-g is forwarded verbatim; everything before is ours. *)
-From WD Require Import Base Wire Conn Color Matcher MatcherParse Show Args ArgsProofs.
+From WD Require Import Base Wire Conn Color Matcher MatcherParse Show Args ArgsProofs ArgsProofsB.
 Open Scope N_scope.
 
 (* the first marker wins; everything after it is forwarded verbatim and in order, whatever it
@@ -65,3 +65,56 @@ Example C19_ex :
   = Ok ([s2l "main.py"; s2l "-f"; s2l "wl_surface"; s2l "-C"], [114], [s2l "prog"; s2l "-g"; s2l "--run"; s2l "-f"])
   /\ py_eval_literal (quote_word (s2l "a\b""c'd")) = Some (s2l "a\b""c'd").
 Proof. vm_compute. split; reflexivity. Qed.
+
+(* ---- our own words: what argparse makes of them (option table of parse_args, Python 3.12) -------------- *)
+(* word lists of exact spellings with separate values (the former extent of the model) are read as before *)
+Theorem C19_exact_spellings : forall f ws o o', parse_opts_spec f ws o = Ok o' -> parse_opts ws o = Ok o'.
+Proof. exact parse_opts_exact_spelling. Qed.
+Print Assumptions C19_exact_spellings.
+
+(* a cluster of single-letter flags sets exactly those flags; a trailing valued letter takes the rest of
+   the word, or the next word, as its value *)
+Theorem C19_cluster_flags : forall ls acts o, ls <> [] -> flag_letters ls acts ->
+  exists o', argparse [45 :: ls] o = APOk o' /\ values_of o' = values_of o /\
+             forall a, is_store_true a = true -> flag_of a o' = flag_of a o || existsb (action_eqb a) acts.
+Proof. exact cluster_flags. Qed.
+Print Assumptions C19_cluster_flags.
+Theorem C19_cluster_attached_value : forall ls acts c a v o,
+  flag_letters ls acts -> lookup [45; c] = Some a -> takes_value a = true ->
+  v <> [] -> all_ascii v = true -> mem_char 61 v = false ->
+  exists o', apply_flags acts o = Some o' /\ argparse [45 :: ls ++ c :: v] o = APOk (set_value a (norm_value v) o').
+Proof. exact cluster_attached_value. Qed.
+Theorem C19_cluster_next_value : forall ls acts c a v o,
+  flag_letters ls acts -> lookup [45; c] = Some a -> takes_value a = true -> starts_with [45] v = false ->
+  exists o', apply_flags acts o = Some o' /\ argparse [45 :: ls ++ [c]; v] o = APOk (set_value a v o').
+Proof. exact cluster_next_value. Qed.
+
+(* a unique prefix of a long option, anywhere among our words, behaves as the full spelling *)
+Theorem C19_abbrev_unique : forall p s a pre post o,
+  starts_with (s2l "--") p = true -> all_ascii p = true -> mem_char 61 p = false ->
+  lookup p = None -> long_matches p = [(s, a)] ->
+  starts_with (s2l "--") s = true -> all_ascii s = true -> lookup s = Some a ->
+  argparse (pre ++ p :: post) o = argparse (pre ++ s :: post) o.
+Proof. exact abbrev_unique. Qed.
+Print Assumptions C19_abbrev_unique.
+
+(* an unknown option or the "--" pseudo-argument anywhere, a stray word in front: never accepted *)
+Theorem C19_unknown_is_error : forall ws w o, In w ws -> classify_word w = CUnknown ->
+  (argparse ws o = APError \/ argparse ws o = APOut) /\ exists m, parse_opts ws o = Raise OutOfModel m.
+Proof. exact unknown_is_error. Qed.
+Print Assumptions C19_unknown_is_error.
+Theorem C19_separator_is_error : forall ws o, In (s2l "--") ws -> argparse ws o = APError \/ argparse ws o = APOut.
+Proof. exact separator_is_error. Qed.
+Theorem C19_stray_first_is_error : forall w ws o, classify_word w = CArg ->
+  argparse (w :: ws) o = APError \/ argparse (w :: ws) o = APOut.
+Proof. exact stray_first_is_error. Qed.
+
+Example C19_argparse_ex :
+  argparse [s2l "-Cp"] opts0 = argparse [s2l "--no-color"; s2l "--pipe"] opts0
+  /\ argparse [s2l "--fil"; s2l "x"; s2l "--sup"] opts0 = argparse [s2l "-f"; s2l "x"; s2l "--supress"] opts0
+  /\ argparse [s2l "-Cfx"] opts0 = argparse [s2l "-C"; s2l "--filter=x"] opts0
+  /\ argparse [s2l "--l"; s2l "x"] opts0 = APError /\ argparse [s2l "-R"] opts0 = APError /\ argparse [s2l "stray"] opts0 = APError
+  /\ argparse [s2l "-f"; s2l "-x"] opts0 = APError /\ argparse [s2l "-p"; s2l "--"] opts0 = APError
+  /\ (exists o, argparse [s2l "-f"; s2l "-5"] opts0 = APOk o /\ o_filter o = Some (s2l "-5"))
+  /\ argparse [s2l "-h"] opts0 = APOut.
+Proof. vm_compute. repeat split. eexists. split; reflexivity. Qed.
